@@ -314,6 +314,64 @@ def linprogStats (P : LP α) (maxIter : Nat) (tol : Tol α) : Nat × List Nat ×
     let (r2, s) := solveTableauStats tol true (maxIter - r1.iters) T1 r1.basis s
     (r2.status, r2.basis, s)
 
+/-! ### lexicographic positivity of the rows (the hypothesis of the textbook termination
+    argument for the lexicographic rule; `lexStartOK` is evaluated by the driver) -/
+
+/-- the columns the ratio test looks at, in its order: right-hand side, then `ss .. ss+L-1` -/
+def lexCols (L N ss : Nat) : List Nat := N :: (List.range L).map (· + ss)
+
+/-- first non-zero entry of `u` along `cols` exists and is positive -/
+def lexPosB (u : Nat → α) : List Nat → Bool
+  | [] => false
+  | j :: js => decide (0 < u j) || ((u j == 0) && lexPosB u js)
+
+/-- every constraint row is lexicographically positive w.r.t. `(rhs, aux block)` -/
+def lexRowsOK (T : M α) : Bool :=
+  (List.range (T.nr - 1)).all fun i =>
+    lexPosB (fun col => T.get i col) (lexCols (T.nr - 1) (T.nc - 1) (T.nc - (T.nr - 1) - 1))
+
+/-- Phase 2 starts from lexicographically positive rows (vacuously true if Phase 1 failed) -/
+def lexStartOK (P : LP α) (maxIter : Nat) (tol : Tol α) : Bool :=
+  let r1 := solvePhase1 tol maxIter (initTableau P) (initBasis P)
+  if r1.status ≠ 0 then true else lexRowsOK r1.T
+
+/-- `solveTableau` with a record of the bases visited: reports whether a basis recurs
+    (attack tool; not used in proofs) -/
+def solveTableauSeen (tol : Tol α) (skipAux : Bool) :
+    Nat → M α → List Nat → List (List Nat) → Nat × Nat × Bool
+  | 0, _, _, seen => (1, seen.length, false)
+  | fuel + 1, T, b, seen =>
+    if seen.contains b then (1, seen.length, true)
+    else
+      match pivotCol T skipAux tol.fea with
+      | none => (0, seen.length, false)
+      | some c =>
+        let pr := lexMinRatio (dropLast T) c (T.nc - (T.nr - 1) - 1) tol.piv tol.diff
+        if pr.1 then solveTableauSeen tol skipAux fuel (pivot T c pr.2) (b.set pr.2 c) (b :: seen)
+        else (3, seen.length, false)
+
+/-- Phase 1, clean-up (counting pivots on negative elements), then Phase 2 with cycle detection:
+    `(status, phase-2 pivots, cycled, lexStartOK, clean-up pivots, negative clean-up pivots)` -/
+def lpCycle (P : LP α) (maxIter : Nat) (tol : Tol α) : Nat × Nat × Bool × Bool × Nat × Nat :=
+  let T0 := initTableau P
+  let L := T0.nr - 1
+  let nm := T0.nc - (L + 1)
+  let r := solveTableau tol false maxIter T0 (initBasis P)
+  if r.status ≠ 0 then (r.status, 0, false, true, 0, 0)
+  else if tol.fea < r.T.get (r.T.nr - 1) (r.T.nc - 1) then (2, 0, false, true, 0, 0)
+  else
+    let st := (List.range L).foldl (fun (acc : Res α × Nat) i =>
+      let r' := cleanupStep tol.piv nm acc.1 i
+      let neg := if r'.iters ≠ acc.1.iters then
+          (match cleanupCol acc.1.T tol.piv nm i with
+           | some j => if acc.1.T.get i j < 0 then 1 else 0
+           | none => 0) else 0
+      (r', acc.2 + neg)) (r, 0)
+    let r1 := st.1
+    let T1 := setCriterionRow P.c P.n r1.basis r1.T
+    let res := solveTableauSeen tol true maxIter T1 r1.basis []
+    (res.1, res.2.1, res.2.2, lexRowsOK r1.T, r1.iters - r.iters, st.2)
+
 /-! ### line protocol -/
 
 instance : Zero Float := ⟨0.0⟩
@@ -379,6 +437,26 @@ def handleSc (sc : Sc β) (toks : List String) : String :=
         s!" colties={s.colties} cleanup={s.cleanup} artleft={s.artleft}"
       else "bad-op"
     | _, _, _, _, _, _, _, _, _, _ => "bad-op"
+  | "lpcycle" :: r =>
+    match kvNat r "n", kvNat r "m", kvNat r "k", sc.vec r "c", sc.mat r "Aub", sc.vec r "bub",
+          sc.mat r "Aeq", sc.vec r "beq", kvNat r "maxiter", kvTol sc r with
+    | some n, some m, some k, some c, some Aub, some bub, some Aeq, some beq, some mi, some tol =>
+      if c.length == n && rectangular Aub m n && bub.length == m && rectangular Aeq k n
+          && beq.length == k then
+        let P : LP β := ⟨n, m, k, fnOfList c, fnOfMat Aub, fnOfList bub, fnOfMat Aeq, fnOfList beq⟩
+        let (st, piv, cyc, ok, cl, neg) := lpCycle P mi tol
+        s!"st={st} pivots={piv} cycled={showBool cyc} lexok={showBool ok} cleanup={cl} negcleanup={neg}" ++
+        s!" lexstart={showBool (lexStartOK P mi tol)}"
+      else "bad-op"
+    | _, _, _, _, _, _, _, _, _, _ => "bad-op"
+  | "tabcycle" :: r =>
+    match kvTab sc r, kvNats r "basis", kv r "skip", kvNat r "maxiter", kvTol sc r with
+    | some T, some b, some sk, some mi, some tol =>
+      if (sk == "0" || sk == "1") && T.nr ≥ 1 && T.nr ≤ T.nc && b.length + 1 == T.nr then
+        let res := solveTableauSeen tol (sk == "1") mi T b []
+        s!"st={res.1} pivots={res.2.1} cycled={showBool res.2.2} lexok={showBool (lexRowsOK T)}"
+      else "bad-op"
+    | _, _, _, _, _ => "bad-op"
   | "init" :: r =>
     match kvNat r "n", kvNat r "m", kvNat r "k", sc.mat r "Aub", sc.vec r "bub",
           sc.mat r "Aeq", sc.vec r "beq" with
